@@ -71,3 +71,11 @@ def declWFb (d : Decl) : Bool :=
     | _ => true) &&
   (d.fields.all fun f => f.role == .transient || !(decide (nameBytes f.name ∈ (removedForm d.steps).map nameBytes))) &&
   plainFreeB d.steps (madeOptPositions d.steps sk) [] d.fields
+
+def tyDeclWFb : TyDecl → Bool
+  | .record d => declWFb d
+  | .enum _ _ cs => decide (cs.length < 2 ^ 32) && cs.all fun c => declWFb c.decl
+
+/-- every declaration of an environment passes the check (evaluated by the driver on the
+declarations the harness sends, and by `decide` on the repository's own in `Props/C02.lean`) -/
+def envWFb (env : Env) : Bool := env.all fun p => tyDeclWFb p.2
